@@ -164,3 +164,52 @@ def slow_close_runs(ctx, n):
         else:
             ok += 1
     return fails, {"tcp_slow_close_runs": len(cases), "tcp_slow_close_ok": ok}
+
+
+# ---------------------------------------------------------------- C10: the timeout toxic's close while another request holds the proxy's toxic lock
+def timeout_under_lock_runs(ctx, n):
+    """connection A's receiver does not read (its link is blocked), a toxic request for that direction waits on A and holds the lock of the
+    proxy's toxic collection; on connection B a timeout toxic of the other direction expires meanwhile: B must be closed T ms after the
+    toxic took effect - not whenever the other request gets through"""
+    rng = C.Rng(ctx.seed).fork("C10lock")
+    cases = []
+    for i in range(n):
+        g = i % 6
+        b = port_base(g)
+        up, px = b + 4, b + 5
+        T = rng.choice([400, 600, 900])
+        ops = [{"op": "upstream", "id": "u", "port": up, "mode": "manual"},
+               api("POST", "/proxies", {"name": "p", "listen": "127.0.0.1:%d" % px, "upstream": "127.0.0.1:%d" % up}),
+               {"op": "dial", "id": "a", "addr": "127.0.0.1:%d" % px}, {"op": "upaccept", "id": "sa", "up": "u", "ms": 1000},
+               {"op": "dial", "id": "b", "addr": "127.0.0.1:%d" % px}, {"op": "upaccept", "id": "sb", "up": "u", "ms": 1000},
+               {"op": "flood", "id": "sa"}, {"op": "sleep", "ms": 400},
+               dict(api("POST", "/proxies/p/toxics", {"type": "timeout", "name": "t", "stream": "upstream", "attributes": {"timeout": T}}), ms=3000)]
+        mark = len(ops)
+        ops += [dict(api("POST", "/proxies/p/toxics", {"type": rng.choice(["latency", "noop"]), "name": "l", "stream": "downstream", "attributes": {}}), ms=250),
+                {"op": "send", "id": "b", "n": 10},
+                {"op": "recv", "id": "b", "up": "sb", "n": 1, "ms": T + 1500}]
+        cases.append({"ops": ops, "group": g, "T": T, "mark": mark})
+    results = run_tcp(ctx, cases, "c10l")
+    fails, ok, blocked = [], 0, 0
+    for c, r in zip(cases, results):
+        if env_broken(r):
+            continue
+        rp = {"kind": "failing-input", "tcp": True, "case": c, "observed": r}
+        if isinstance(r, dict):
+            fails.append(("crash", "process crashed in a timeout-under-lock scenario", rp))
+            continue
+        if r[c["mark"] - 1].get("status") != 200:
+            continue                                    # the timeout toxic could not be added in time: inconclusive
+        if r[c["mark"]].get("status") != -1:
+            continue                                    # the second request was not held up (buffers did not fill): nothing to judge
+        blocked += 1
+        elapsed = sum(x.get("took_ms", 0) for x in r[c["mark"]:])
+        last = r[-1]
+        if last.get("end") == "timeout":
+            fails.append(("timeout-close-waits-for-lock", "timeout %d ms: the connection was still open %d ms after the toxic took effect, while another toxic request on the "
+                          "proxy was waiting for a connection whose receiver does not read" % (c["T"], elapsed), rp))
+        elif elapsed + 40 < c["T"]:
+            fails.append(("timeout-early", "timeout %d ms: the connection was closed after %d ms" % (c["T"], elapsed), rp))
+        else:
+            ok += 1
+    return fails, {"tcp_timeout_under_lock_runs": len(cases), "tcp_timeout_under_lock_blocked": blocked, "tcp_timeout_under_lock_ok": ok}
